@@ -477,6 +477,203 @@ def translate(repo):
     L += ["(* src/cookie.rs impl Display for Cookie: the statements of fmt, in order *)",
           "Definition src_cookie_display : list cookie_seg := [\n  %s]." % ";\n  ".join(segs), ""]
 
+    # ---- src/log/tag_value.rs: write_json_string arm by arm, Display for TagValue arm by arm
+    jarms, tvarms, jquote = [], [], None
+    try:
+        tsrc = read(repo, "src/log/tag_value.rs")
+        body = fn_body(tsrc, "pub fn write_json_string")
+        flat = body.strip()
+        m = re.match(r'f\.write_str\("((?:[^"\\]|\\.)*)"\)\?;\s*for\s+c\s+in\s+s\.chars\(\)\s*\{\s*match\s+c\s*\{(.*)\}\s*\}\s*f\.write_str\("((?:[^"\\]|\\.)*)"\)\s*$', flat, re.S)
+        if not m or m.group(1) != m.group(3):
+            raise ValueError("shape: open quote, for c in s.chars() { match c {..} }, close quote")
+        jquote = rust_unescape(m.group(1))
+        for arm in [a.strip() for a in re.split(r",\s*\n", m.group(2)) if a.strip()]:
+            arm = arm.rstrip(",")
+            a = re.fullmatch(r"'((?:[^'\\]|\\.)+)'\s*=>\s*f\.write_str\(\"((?:[^\"\\]|\\.)*)\"\)\?", arm)
+            if a:
+                ch = rust_unescape(a.group(1)).decode("utf-8")
+                if len(ch) != 1:
+                    raise ValueError("char literal %r" % a.group(1))
+                jarms.append("JLit %d %s" % (ord(ch), coq_bytes(rust_unescape(a.group(2)))))
+                continue
+            a = re.fullmatch(r'c\s+if\s+u32::from\(c\)\s*<\s*(0x[0-9a-fA-F]+|\d+)\s*=>\s*write!\(\s*f\s*,\s*"((?:[^"\\{]|\\.)*)\{:04x\}"\s*,\s*u32::from\(c\)\s*\)\?', arm)
+            if a:
+                jarms.append("JBelowHex4 %d %s" % (int(a.group(1), 0), coq_bytes(rust_unescape(a.group(2)))))
+                continue
+            if re.fullmatch(r'c\s*=>\s*write!\(\s*f\s*,\s*"\{c\}"\s*\)\?', arm):
+                jarms.append("JSelf")
+                continue
+            raise ValueError("escape arm %r" % arm)
+        i = tsrc.index("impl Display for TagValue")
+        body = fn_body(tsrc[i:], "fn fmt")
+        m = re.fullmatch(r"\s*match\s+self\s*\{(.*)\}\s*", body, re.S)
+        if not m:
+            raise ValueError("Display for TagValue: one match")
+        txt = re.sub(r"=>\s*\{\s*(write_json_string\(f,\s*x\))\s*\}", r"=> \1,", m.group(1))
+        for arm in [a.strip() for a in re.split(r",\s*\n", txt) if a.strip()]:
+            arm = re.sub(r"\s+", " ", arm.rstrip(","))
+            a = re.fullmatch(r"TagValue::(\w+)\(x\) => write_json_string\(f, x\)", arm)
+            if a:
+                tvarms.append("(%s, TVJsonString)" % coq_bytes(a.group(1))); continue
+            a = re.fullmatch(r"TagValue::(\w+)\(x\) => Display::fmt\(&x, f\)", arm)
+            if a:
+                tvarms.append("(%s, TVDisplay)" % coq_bytes(a.group(1))); continue
+            a = re.fullmatch(r'TagValue::(\w+)\(x\) if ((?:x\.ends_with\("[^"]*"\)(?: \|\| )?)+) => write_json_string\(f, x\)', arm)
+            if a:
+                sfx = re.findall(r'x\.ends_with\("([^"]*)"\)', a.group(2))
+                tvarms.append("(%s, TVJsonStringIfEndsWith [%s])" % (coq_bytes(a.group(1)), "; ".join(coq_bytes(x) for x in sfx))); continue
+            a = re.fullmatch(r'TagValue::(\w+) => write!\(f, "((?:[^"\\{]|\\.)*)"\)', arm)
+            if a:
+                tvarms.append("(%s, TVLit %s)" % (coq_bytes(a.group(1)), coq_bytes(rust_unescape(a.group(2))))); continue
+            raise ValueError("Display arm %r" % arm)
+    except Exception as e:   # noqa
+        P.append("src/log/tag_value.rs write_json_string / Display for TagValue: cannot translate (%s)" % e)
+        jarms, tvarms, jquote = [], [], b'"'
+    L += ["(* src/log/tag_value.rs: write_json_string (quote, one match arm per line, quote) and Display for TagValue *)",
+          "Definition src_json_quote : list N := %s." % coq_bytes(jquote),
+          "Definition src_json_arms : list json_arm := [\n  %s]." % ";\n  ".join(jarms),
+          "Definition src_tagvalue_arms : list tv_arm := [\n  %s]." % ";\n  ".join(tvarms), ""]
+
+    # ---- src/log/logger.rs: LogEvent::write_jsonl -- bindings and the two format strings
+    def parse_fmt(lit):
+        segs, cur, i = [], "", 0
+        while i < len(lit):
+            if lit.startswith("{{", i):
+                cur += "{"; i += 2
+            elif lit.startswith("}}", i):
+                cur += "}"; i += 2
+            elif lit[i] == "{":
+                j = lit.index("}", i)
+                a = re.fullmatch(r"([a-z_][a-z0-9_]*)(?::0(\d+))?", lit[i + 1:j])
+                if not a:
+                    raise ValueError("format argument %r" % lit[i:j + 1])
+                if cur:
+                    segs.append("FLit %s" % coq_bytes(rust_unescape(cur))); cur = ""
+                segs.append("FArg %s %d" % (coq_bytes(a.group(1)), int(a.group(2) or 0)))
+                i = j + 1
+            elif lit[i] == "\\":
+                cur += lit[i:i + 2]; i += 2
+            else:
+                cur += lit[i]; i += 1
+        if cur:
+            segs.append("FLit %s" % coq_bytes(rust_unescape(cur)))
+        return segs
+    jl = dict(binds=[], empty=[], tags=[])
+    try:
+        lsrc = read(repo, "src/log/logger.rs")
+        body = fn_body(lsrc, "pub fn write_jsonl")
+        flat = re.sub(r"\s+", "", body)
+        m = re.match(r'((?:let[a-z_]+=[^;]*;)*)iftags\.is_empty\(\)\{writeln!\(f,"((?:[^"\\]|\\.)*)"\)\}else\{writeln!\(f,"((?:[^"\\]|\\.)*)"\)\}$', flat)
+        if not m:
+            raise ValueError("shape: let bindings; if tags.is_empty() { writeln!(f, A) } else { writeln!(f, B) }")
+        for b in re.finditer(r"let([a-z_]+)=([^;]*);", m.group(1)):
+            jl["binds"].append("(%s, %s)" % (coq_bytes(b.group(1)), coq_bytes(b.group(2))))
+        jl["empty"], jl["tags"] = parse_fmt(m.group(2)), parse_fmt(m.group(3))
+    except Exception as e:   # noqa
+        P.append("src/log/logger.rs write_jsonl: cannot translate (%s)" % e)
+        jl = dict(binds=[], empty=[], tags=[])
+    L += ["(* src/log/logger.rs LogEvent::write_jsonl: the let bindings (name, expression text without blanks), and the",
+          "   format strings of the branch without tags / with tags (each written with writeln!) *)",
+          "Definition src_jsonl_binds : list (list N * list N) := [\n  %s]." % ";\n  ".join(jl["binds"]),
+          "Definition src_jsonl_fmt_empty : list fmt_seg := [\n  %s]." % ";\n  ".join(jl["empty"]),
+          "Definition src_jsonl_fmt_tags : list fmt_seg := [\n  %s]." % ";\n  ".join(jl["tags"]), ""]
+
+    # ---- src/log/log_file_writer.rs: the body of the writer thread's loop, statement by statement;
+    #      LogFile::create name format, LogFile::write_all, LogFile::age, builder defaults
+    wl = dict(stmts=[], name_fmt=[], defaults=None)
+    try:
+        wsrc = read(repo, "src/log/log_file_writer.rs")
+        sw = fn_body(wsrc, "pub fn start_writer_thread")
+        loop = fn_body(sw, "for event in receiver")
+        flat = re.sub(r"\s+", "", loop)
+        EXPR = {"file.len": "WFileLen", "(buffer.len()asu64)": "WBufLen", "buffer.len()asu64": "WBufLen",
+                "self.max_write_bytes": "WMaxWriteBytes", "self.max_keep_bytes": "WMaxKeepBytes",
+                "self.max_write_age": "WMaxWriteAge", "file.age(now)": "WFileAgeNow"}
+        def expr(t):
+            if t in EXPR:
+                return EXPR[t]
+            a = re.fullmatch(r"(.*)\.saturating_sub\(((?:[^()]|\([^()]*\))*)\)", t)
+            if a:
+                return "(WSatSub %s %s)" % (expr(a.group(1)), expr(a.group(2)))
+            if "+" in t:
+                l, r = t.split("+", 1)
+                return "(WAdd %s %s)" % (expr(l), expr(r))
+            raise ValueError("expression %r" % t)
+        def cond(t):
+            if "||" in t:
+                l, r = t.split("||", 1)
+                return "(WOr %s %s)" % (cond(l), cond(r))
+            l, r = t.split(">", 1)
+            return "(WGt %s %s)" % (expr(l), expr(r))
+        rest = flat
+        while rest:
+            m = re.match(r"event\.write_jsonl\(&mutbuffer\)\.unwrap\(\);", rest)
+            if m:
+                wl["stmts"].append("WSRender"); rest = rest[m.end():]; continue
+            m = re.match(r"letnow=SystemTime::now\(\);", rest)
+            if m:
+                wl["stmts"].append("WSNow"); rest = rest[m.end():]; continue
+            m = re.match(r"if([^{]*)\{file_set\.push\(PrefixFile\{([^}]*)\}\);file=LogFile::create\(&path_prefix\)\.unwrap\(\);\}", rest)
+            if m:
+                FIELDS = {"path:file.path.clone()": "PFPathFilePath", "mtime:now": "PFMtimeNow", "len:file.len": "PFLenFileLen"}
+                fl = [x for x in m.group(2).split(",") if x]
+                if any(x not in FIELDS for x in fl):
+                    raise ValueError("PrefixFile fields %r" % fl)
+                wl["stmts"].append("WSRotateIf %s [%s]" % (cond(m.group(1)), "; ".join(FIELDS[x] for x in fl)))
+                rest = rest[m.end():]; continue
+            m = re.match(r"ifletSome\(duration\)=self\.max_keep_age\{file_set\.delete_older_than\(now,duration\)\.unwrap\(\);\}", rest)
+            if m:
+                wl["stmts"].append("WSDeleteOlderIfKeepAge"); rest = rest[m.end():]; continue
+            m = re.match(r"file_set\.delete_oldest_while_over_max_len\(((?:[^()]|\((?:[^()]|\([^()]*\))*\))*),?\)\.unwrap\(\);", rest)
+            if m:
+                wl["stmts"].append("WSDeleteWhileOver %s" % expr(m.group(1).rstrip(","))); rest = rest[m.end():]; continue
+            m = re.match(r"file\.write_all\(&buffer\)\.unwrap\(\);", rest)
+            if m:
+                wl["stmts"].append("WSWriteBuffer"); rest = rest[m.end():]; continue
+            m = re.match(r"buffer\.clear\(\);", rest)
+            if m:
+                wl["stmts"].append("WSClearBuffer"); rest = rest[m.end():]; continue
+            raise ValueError("loop statement %r" % rest[:70])
+        cr = re.sub(r"\s+", "", fn_body(wsrc, "pub fn create"))
+        m = re.search(r'path_str\.push\(format!\("((?:[^"\\]|\\.)*)",dt\.year,dt\.month,dt\.day,dt\.hour,dt\.min,dt\.sec\)\);', cr)
+        if not m or "create_new(true)" not in cr or "len:0," not in cr or not re.search(r"fornin 0\.\.u64::MAX|fornin0\.\.u64::MAX", cr):
+            raise ValueError("LogFile::create: name format / create_new / len: 0 / n from 0")
+        k = [0]
+        def pos(a):
+            k[0] += 1
+            return "{f%d%s}" % (k[0], a.group(1))
+        named = re.sub(r"\{(:0\d+)?\}", pos, m.group(1))
+        wl["name_fmt"] = parse_fmt(named)
+        wa = re.sub(r"\s+", "", fn_body(wsrc, "pub fn write_all"))
+        if not re.search(r"self\.len\+=buffer\.len\(\)asu64;Ok\(\(\)\)$", wa):
+            raise ValueError("LogFile::write_all: self.len += buffer.len() as u64")
+        ag = re.sub(r"\s+", "", fn_body(wsrc, "pub fn age"))
+        if ag not in ("now.duration_since(self.created).unwrap_or(Duration::from_secs(0))", "now.duration_since(self.created).unwrap_or_default()"):
+            raise ValueError("LogFile::age: now - created, zero when negative")
+        nb = re.sub(r"\s+", "", fn_body(wsrc, "pub fn new_builder"))
+        m1 = re.search(r"max_keep_age:None,", nb)
+        m2 = re.search(r"max_write_age:Duration::from_secs\(([\d*]+)\),", nb)
+        m3 = re.search(r"max_write_bytes:([\d*]+),", nb)
+        mb = re.sub(r"\s+", "", fn_body(wsrc, "pub fn with_max_write_bytes"))
+        m4 = re.search(r"assert!\(len>=\(?([\d*]+)\)?,", mb)
+        if not (m1 and m2 and m3 and m4):
+            raise ValueError("builder defaults")
+        prod = lambda t: eval(t, {"__builtins__": {}})   # digits and * only (regex above)
+        wl["defaults"] = (prod(m2.group(1)), prod(m3.group(1)), prod(m4.group(1)))
+        st = re.sub(r"\s+", "", sw)
+        if not re.search(r"letmutfile_set=PrefixFileSet::new\(&path_prefix\)\?;file_set\.delete_oldest_while_over_max_len\(self\.max_keep_bytes\)\?;letmutfile=LogFile::create\(&path_prefix\)\?;", st):
+            raise ValueError("start: scan, trim to max_keep_bytes, create")
+    except Exception as e:   # noqa
+        P.append("src/log/log_file_writer.rs: cannot translate (%s)" % e)
+        wl = dict(stmts=[], name_fmt=[], defaults=(86400, 10485760, 65536))
+    L += ["(* src/log/log_file_writer.rs: the statements of the writer thread's loop body in order; the name format of",
+          "   LogFile::create (positional arguments named f1..f6 = year..sec, n); builder defaults *)",
+          "Definition src_writer_loop : list wstmt := [\n  %s]." % ";\n  ".join(wl["stmts"]),
+          "Definition src_logfile_name_fmt : list fmt_seg := [\n  %s]." % ";\n  ".join(wl["name_fmt"]),
+          "Definition src_default_max_write_age_secs : N := %d." % wl["defaults"][0],
+          "Definition src_default_max_write_bytes : N := %d." % wl["defaults"][1],
+          "Definition src_min_max_write_bytes : N := %d." % wl["defaults"][2], ""]
+
     # ---- src/head.rs: the two regex literals
     rx = []
     try:
@@ -493,8 +690,9 @@ def translate(repo):
           "Definition src_field_line_regex : regex :=\n  %s." % rx[1], ""]
 
     items = [("chunk", "src/util.rs"), ("event_queue", "src/response.rs"), ("conn_buf", "src/http_conn.rs HttpConn.buf"), ("conn_guards", "src/http_conn.rs state guards"),
-             ("time", "src/time.rs"), ("content_type", "src/content_type.rs"), ("log_prio", "src/log/logger.rs"),
-             ("event_fmt", "src/event.rs"), ("regex", "src/head.rs"), ("cookie", "src/cookie.rs"), ("request", "src/request.rs")]
+             ("time", "src/time.rs"), ("content_type", "src/content_type.rs"), ("log_prio", "src/log/logger.rs log()"),
+             ("event_fmt", "src/event.rs"), ("regex", "src/head.rs"), ("cookie", "src/cookie.rs"), ("request", "src/request.rs"),
+             ("json", "src/log/tag_value.rs"), ("jsonl", "src/log/logger.rs write_jsonl"), ("writer", "src/log/log_file_writer.rs")]
     L.append("(* what the translator could not read, per item (0 everywhere = the translation is complete) *)")
     for key, prefix in items:
         L.append("Definition src_problems_%s : nat := %d." % (key, sum(1 for p in P if p.startswith(prefix))))
